@@ -116,6 +116,7 @@ structure Run where
   vt : Nat := 0
   msElapsed : Nat := 0
   out : Array String := #[]
+  diag : List String := []     -- model-side diagnosis (not part of the compared output)
 
 /-- move what the model emitted since the last call into the trace, stamped with virtual time -/
 def collectTag (tag : String) (r : Run) : Run :=
@@ -142,16 +143,51 @@ def doInput (r : Run) (i : Input) : Except K.Crash Run :=
   | .error c => .error c
   | .ok k => .ok (collectTag (match i with | .rep _ => "R" | _ => "") { r with k })
 
+/-- what one more tick would change although kanata says it may block (empty = quiescent);
+ageing counters (history ages) are not differences -/
+def nonQuiescent (k : KState) : List String :=
+  match tickStates k with
+  | .error _ => ["crash"]
+  | .ok k' =>
+    let l := k.layout
+    let l' := k'.layout
+    (if k'.out != k.out then ["os-output"] else []) ++
+    (if l'.states != l.states then ["states"] else []) ++
+    (if l'.queue.map (·.ev) != l.queue.map (·.ev) then ["queue"] else []) ++
+    (if l'.waiting.isSome != l.waiting.isSome then ["waiting"] else []) ++
+    (if l'.extraWaiting.length != l.extraWaiting.length || !l.extraWaiting.isEmpty then ["extra_waiting"] else []) ++
+    (if l'.oneshot != l.oneshot then ["oneshot"] else []) ++
+    (if l'.activeSequences != l.activeSequences then ["active_sequences"] else []) ++
+    (if l'.actionQueue.length != l.actionQueue.length then ["action_queue"] else []) ++
+    (if l'.lptTapHoldTimeout != l.lptTapHoldTimeout then ["tap_hold_interval"] else []) ++
+    (if k'.prevKeys != k.prevKeys then ["prev_keys"] else []) ++
+    (if k'.vkeysPendingRelease != k.vkeysPendingRelease then ["vkeys_pending_release"] else []) ++
+    (if k'.capsWord != k.capsWord then ["caps_word"] else []) ++
+    (if k'.scroll != k.scroll || k'.hscroll != k.hscroll || k'.moveV != k.moveV || k'.moveH != k.moveH then ["mouse"] else [])
+
 /-- `n` milliseconds of the processing loop without input -/
 def gapN : Nat → Run → Except K.Crash Run
   | 0, r => .ok r
   | n + 1, r =>
     let (k, block) := canBlockUpdateIdleWaiting r.k r.msElapsed
     let r := { r with k }
-    if block then .ok { r with vt := r.vt + (n + 1) }
+    if block then
+      let nq := nonQuiescent k
+      let r := if nq.isEmpty then r else { r with diag := r.diag ++ [s!"blocks at {r.vt} although a tick would change: {",".intercalate nq}"] }
+      .ok { r with vt := r.vt + (n + 1) }
     else match doTick false r with
       | .error c => .error c
       | .ok r => gapN n { r with msElapsed := 1 }
+
+/-- the loop that never blocks: it still calls `can_block_update_idle_waiting` every millisecond
+(which advances the idle clock) but ticks whatever the answer -/
+def gapAlways : Nat → Run → Except K.Crash Run
+  | 0, r => .ok r
+  | n + 1, r =>
+    let (k, _) := canBlockUpdateIdleWaiting r.k r.msElapsed
+    match doTick false { r with k } with
+    | .error c => .error c
+    | .ok r => gapAlways n { r with msElapsed := 1 }
 
 def runHist (dbg loopMode alwaysTick : Bool) : List KEv → Run → Except K.Crash Run
   | [], r => .ok r
@@ -173,7 +209,7 @@ def runHist (dbg loopMode alwaysTick : Bool) : List KEv → Run → Except K.Cra
         | .error e => .error (.layout e)
         | .ok l => .ok { r with k := { r.k with layout := l } }
       | .tick n => ticksN dbg n r
-      | .gap n => if loopMode && !alwaysTick then gapN n r else ticksN false n r
+      | .gap n => if loopMode && !alwaysTick then gapN n r else if loopMode then gapAlways n r else ticksN false n r
     match step with
     | .error e => .error e
     | .ok r => runHist dbg loopMode alwaysTick rest r
